@@ -80,6 +80,10 @@ def run(ctx) -> None:
     r9_operators_and_memos(ctx)
     r11_config_not_shared(ctx)
     r12_rule_objects_fresh(ctx)
+    # the combined pipeline a backend keeps between calls belongs to one output format (shared with C14.R6)
+    from . import c14
+    from ..util import run_as
+    run_as(ctx, c14.r6_format_of_cached_pipeline, "C14.R6", "C15.R13", "no pipeline of an earlier call's format: ")
     r6_singletons(ctx)
     r7_mutable_defaults(ctx)
     r8_fresh_state(ctx)
